@@ -202,3 +202,48 @@ func vxHandlesScenario(prior bool) {
 	vxAssert("no-mappings-left", fs.liveRegions() == 0)
 	vxAssert("only-current-data-file-left", len(fs.names()) == 1)
 }
+
+func init() { vxRegister("vxH_C15_abort", vxH_C15_abort) }
+
+// vxH_C15_abort: a store is aborted (CloseEx{Abort: true} on one of two
+// references) and then asked for one more round, symbolically an append, a
+// leveled or a full compaction, with or without new data. The round either
+// succeeds or reports ErrAborted; once everything is closed nothing is
+// open or mapped and only one data file is left - a compaction file that
+// was given up is removed again.
+func vxH_C15_abort() {
+	fs := vxNewFS()
+	so := vxStoreOptions(fs)
+	store, err := OpenStore(fs.dir, so)
+	vxAssert("open-ok", err == nil)
+	opts := &so.CollectionOptions
+	mk := func(k byte) []vxEnt {
+		var e vxEnt
+		e.k.n, e.k.b[0] = 1, k
+		e.op, e.v.n, e.v.b[0] = OperationSet, 1, vxU8()
+		return []vxEnt{e}
+	}
+	for _, k := range []byte{'a', 'b'} {
+		s, perr := store.Persist(vxHigher(opts, mk(k)), StorePersistOptions{})
+		vxAssert("round-ok", perr == nil)
+		s.Close()
+	}
+	store.AddRef()
+	vxAssert("abort-ok", store.CloseEx(StoreCloseExOptions{Abort: true}) == nil)
+	var higher Snapshot
+	if vxChoose(2) == 1 {
+		higher = vxHigher(opts, mk('c'))
+	}
+	po := StorePersistOptions{CompactionConcern: CompactionConcern(vxChoose(3))}
+	s, perr := store.Persist(higher, po)
+	vxAssert("aborted-round-succeeds-or-reports-abort", perr == nil || perr == ErrAborted)
+	if perr == nil && s != nil {
+		s.Close()
+	}
+	store.Close()
+	vxQuiesce()
+	vxObserveInt("files-left", len(fs.names()))
+	vxAssert("no-open-files-left", fs.openFiles() == 0)
+	vxAssert("no-mappings-left", fs.liveRegions() == 0)
+	vxAssert("only-current-data-file-left", len(fs.names()) == 1)
+}
